@@ -413,8 +413,10 @@ func mitmFollowUp(s *Scenario, cl *h1harness.Client, report func(sym, detail str
 				tc.Write([]byte(h2Preface[:s.K]))
 			}
 		}
-		// Whatever the client sent, the proxy's upstream dial fails. How the client connection ends is not
-		// judged here (HTTP/2 session teardown is C10's subject); it is recorded.
+		// Whatever the client sent, the proxy's upstream dial fails: no response can ever come. A client that has
+		// done its part (valid preface and SETTINGS) must then see its connection closed; a connection left open
+		// and idle until the proxy's idle timeout is the hang the statement excludes. (For the other continuations
+		// the ending is recorded, not judged.)
 		_, inMemory := cl.Conn.(*h1harness.MemConn)
 		if !inMemory { // over TCP a stall can only be seen as a quiet period
 			cl.Conn.SetDeadline(time.Now().Add(1500 * time.Millisecond))
@@ -426,6 +428,9 @@ func mitmFollowUp(s *Scenario, cl *h1harness.Client, report func(sym, detail str
 				switch {
 				case strings.Contains(err.Error(), "stalled"), os.IsTimeout(err) && !inMemory:
 					end = "stalled" // the proxy keeps the client connection open and idle
+					if s.Follow == "h2_preface" {
+						report("conn_left_open", "the origin cannot be reached (upstream dial fails) but the proxy neither answers nor closes the client's HTTP/2 connection: it stays open and idle")
+					}
 				case os.IsTimeout(err):
 					end = "timeout"
 					report("hang", "nothing happens on the intercepted h2 connection within the hang deadline")
